@@ -51,9 +51,10 @@ def gb_items(g):
 
 
 class Gen:
-    def __init__(self, sess, rng, probes_per_state=0):
+    def __init__(self, sess, rng, probes_per_state=0, reentry_prob=0.0):
         self.s = sess
         self.r = rng
+        self.reentry_prob = reentry_prob   # re-entrant sessions: payout-bearing operations carry a program for the hostile contract
         self.pending = []  # queued plan operations: (op, tag)
         self.next_id = 1
         self.probes_per_state = probes_per_state
@@ -635,10 +636,69 @@ class Gen:
                ("op_delete_listing", 4), ("op_reuse_traded_bucket", 6), ("op_fee_cycle", 3), ("op_advance", 9),
                ("op_registry", 7), ("op_transfer", 2), ("op_set_admin", 1)]
 
+    def reentry_program(self, v):
+        """What the hostile contract does when the marketplace hands it a transfer: forged hook calls, withdrawals and
+        purchases of whatever is there, deposits with its own coins and honest tokens."""
+        r = self.r
+        h = r.choice(self.hostiles)
+        ls, bs = v.listings(), v.buckets()
+        prog = []
+        for _ in range(r.randint(1, 4)):
+            x = r.random()
+            if x < 0.35:
+                prog.append(self.hostile_call(v)[0][0])
+            elif x < 0.5:
+                prog.append(E(h, {"k": "create_bucket", "id": self.fresh_id()}, [[r.choice(self.denoms), r.choice([1, 7, 200, 10 ** 7])]]))
+            elif x < 0.6 and self.cw20s:
+                prog.append({"t": "cw20_send", "user": h, "token": r.choice(self.cw20s), "amount": r.choice([1, 5, 50]),
+                             "inner": {"k": "create_bucket_cw20", "id": self.fresh_id()}})
+            elif x < 0.75 and bs:
+                prog.append(E(h, {"k": "remove_bucket", "id": int(r.choice(bs)["kid"])}))
+            elif x < 0.85 and ls:
+                l = r.choice(ls)
+                prog.append(E(h, r.choice([{"k": "withdraw_purchased", "id": int(l["kid"])}, {"k": "delete_listing", "id": int(l["kid"])}])))
+            elif x < 0.95 and ls and bs:
+                prog.append(E(h, {"k": "buy", "lid": int(r.choice(ls)["kid"]), "bid": int(r.choice(bs)["kid"])}))
+            else:
+                prog.append(E(h, {"k": "fee_cycle"}))
+        return prog
+
+    def op_hostile_own(self, v):
+        """The hostile contract builds records of its own that hold its "token" next to real assets."""
+        r = self.r
+        h = r.choice(self.hostiles)
+        own = [b for b in v.buckets() if b["kowner"] == h]
+        if own and r.random() < 0.6:
+            bid = int(r.choice(own)["kid"])
+            return [(r.choice([E(h, {"k": "receive", "sender": h, "amount": r.choice([1, 5]), "inner": {"k": "add_to_bucket_cw20", "id": bid}}),
+                               E(h, {"k": "add_to_bucket", "id": bid}, [[r.choice(self.denoms), r.choice([3, 250])]]),
+                               E(h, {"k": "remove_bucket", "id": bid})]), "hostile")]
+        return [(E(h, {"k": "create_bucket", "id": self.fresh_id()}, [[r.choice(self.denoms), r.choice([5, 400])]]), "hostile")]
+
+    def op_exit_tainted(self, v):
+        """An owner cashes out a record that holds a hostile "token": the marketplace will hand the hostile contract a transfer."""
+        def tainted(g):
+            return any(t in self.hostiles for t, _ in g["cw20"]) or any(c in self.hostiles for c, _ in g["nfts"])
+        cands = [E(b["kowner"], {"k": "remove_bucket", "id": int(b["kid"])}) for b in v.buckets() if tainted(b["funds"])]
+        for l in v.listings():
+            if tainted(l["for_sale"]):
+                if l["status"] == "Closed":
+                    cands.append(E(l["kowner"], {"k": "withdraw_purchased", "id": int(l["kid"])}))
+                elif l["status"] == "BeingPrepared" or (l["exp"] and int(l["exp"]) < v.now):
+                    cands.append(E(l["kowner"], {"k": "delete_listing", "id": int(l["kid"])}))
+        if not cands:
+            return None
+        return [(self.r.choice(cands), "valid")]
+
     def next_ops(self):
         v = View(self.s)
         if self.pending and self.r.random() < 0.75:
             return [self.pending.pop(0)]
+        if self.reentry_prob and self.hostiles and self.r.random() < 0.35:
+            x = self.r.random()
+            ops = self.hostile_call(v) if x < 0.4 else self.op_hostile_own(v) if x < 0.6 else self.op_exit_tainted(v)
+            if ops:
+                return ops
         if self.r.random() < 0.15:
             m = self.op_malformed(v)
             if m:
@@ -658,6 +718,9 @@ class Gen:
         done = 0
         while done < n_ops:
             for op, tag in self.next_ops():
+                if self.reentry_prob and self.hostiles and is_payout_bearing(op) and self.r.random() < self.reentry_prob:
+                    op = dict(op)
+                    op["reentry"] = self.reentry_program(View(self.s))
                 if fault_prob and is_payout_bearing(op) and self.r.random() < fault_prob:
                     with_faults(self.s, op, tag)
                 else:
